@@ -203,8 +203,8 @@ PROPS = {
         level_note="Schedules are sampled, not controlled: the race detector only sees interleavings that happen. The statement's static obligation (no non-init write to package variables, no receiver-field writes in Codec methods) is a structural argument outside this technique family and is not decided here.",
         rule=("rapid-generated concurrent workloads. Non-trivial: at least two jobs on the same codec instance measurably overlapped in time (start/end stamps). Distinct = hash of the case."),
         assumptions=COMMON_ASSUME + ["the Go race detector reports every data race among the executed, conflicting accesses"],
-        quick=dict(shards=8, checks=25, extra=["TestSharedParams", dict(run="TestColdStart", shards=17)], timeout=900, parallel=8, gomaxprocs=16),
-        thorough=dict(shards=8, checks=600, extra=["TestSharedParams", dict(run="TestColdStart", shards=17)], timeout=3400, parallel=8, gomaxprocs=16),
+        quick=dict(shards=8, checks=25, extra=[dict(run="TestSharedParams", shards=7), dict(run="TestColdStart", shards=17)], timeout=900, parallel=8, gomaxprocs=16),
+        thorough=dict(shards=8, checks=600, extra=[dict(run="TestSharedParams", shards=7), dict(run="TestColdStart", shards=17)], timeout=3400, parallel=8, gomaxprocs=16),
     ),
     "C08": dict(
         pkg="c0809", env={"VERIF_PROP": "C08", "VERIF_WORKER_HANG_S": "12"}, fuzz=dict(target="FuzzDecode"),
